@@ -272,7 +272,7 @@ def sim_task(ctx, prop, profile_name, examples, shard):
         classes.append("cfg:" + case["cfg"]["cc"])
         nt = c01_nontrivial(sim) if prop == "C01" else True
         ctx.case(sim.seed(), nontrivial=nt, classes=classes)
-        if ctx.evaluations % 40 == 0:
+        if ctx.want_sample():
             ctx.sample({"cfg": case["cfg"], "script": case["script"][:6], "fates": case["fates"][:8], "events": dict(list(sim.stats.items())[:12])})
 
     run_hypothesis(ctx, body, strat, examples, shard=shard)
